@@ -19,7 +19,7 @@ ID = "C01"
 LEVEL = "model_checking"
 MIN_OUTCOMES = 4
 MANIFEST = {
-    'text': 'Explicit-state exploration of the bump transition system on the real command bodies: from every (pattern, seed state) all 2^5 flags x 3 tag choices x 4 date kinds run through `test`; a sub-alphabet plus every constructed --set-version target (greater, equal, lower, PEP 440-equal respellings, other-scheme, junk, empty) run through test, update --dry and update in a scratch project; and, with tags served by a fake git, every placement of 5 (thorough 7) tags x scope x config position x bump flags (incl. a failing fetch, the scope given on the command line against a config naming another one, and `.git` being a file as in linked work trees) through update --dry; 14 malformed flag shapes (impossible dates, unknown tags, conflicting or dangling options) through test/update: whenever a run exits 0 the announced version full-matches the reference recogniser and is strictly greater than the reference start version (config or newest tag in scope); otherwise no byte of any file changes.',
+    'text': 'Explicit-state exploration of the bump transition system on the real command bodies: from every (pattern, seed state; the grammar plus six patterns with a less significant calendar part in front) all 2^5 flags x 3 tag choices x 4 date kinds run through `test`; a sub-alphabet plus every constructed --set-version target (greater, equal, lower, PEP 440-equal respellings, other-scheme, junk, empty) run through test, update --dry and update in a scratch project; and, with tags served by a fake git, every placement of 5 (thorough 7) tags x scope x config position x bump flags (incl. a failing fetch, the scope given on the command line against a config naming another one, and `.git` being a file as in linked work trees) through update --dry; 14 malformed flag shapes (impossible dates, unknown tags, conflicting or dangling options) through test/update: whenever a run exits 0 the announced version full-matches the reference recogniser and is strictly greater than the reference start version (config or newest tag in scope); otherwise no byte of any file changes.',
     'note': "order for non-PEP 440 strings uses bumpver's own key (C16 validates it); start-version rule shared with C09's reference",
     'technique': 'explicit-state model checking of the implementation: invariant on every transition of the bounded bump graph',
 }
@@ -36,15 +36,21 @@ TEST_TAGS = (None, "rc", "final")
 TEST_DATES = ("pin", "same", "next-year", "-400d")
 
 
+# patterns of the documented language in which a LESS significant calendar part stands before a more significant one (or unpadded parts are
+# glued): the version that follows a month / year boundary is lower under PEP 440 - such a bump must be refused, not announced
+REVERSED_CALENDAR = ["MM.YYYY", "0D.0M.YYYY", "WW.YYYY.PATCH", "YYYYMM", "0M.0D.YY", "DD.MM.YYYY[-TAG]"]
+
+
 def pattern_set(tier, seed):
+    extra = [grammar.Pat(M.parse_pattern(t)) for t in REVERSED_CALENDAR]
     if tier == "thorough":
         core, flt = grammar.generate("core")
-        return core, flt
+        return core + extra, flt
     core, flt = grammar.generate("core", prefixes=("",))
     n = len(grammar.README_PATTERNS)
     nsl = 20
     rest = core[n:]
-    return core[:n] + rest[seed % nsl :: nsl], flt
+    return core[:n] + extra + rest[seed % nsl :: nsl], flt
 
 
 def bounds(tier, seed):
